@@ -91,12 +91,14 @@ CHECKS = {
               "operators vs explicit device simulations, pattern characterisations, pass counts, Simion-Schmidt bijection on full domains up to n=8/9.", _BNOTE,
               "bounded run-time contracts vs device simulations + deductive wrappers"),
     "C13": _c("exploration",
-              "Deductive: is_finite (arity 0-3), four run-shape predicates equal their class definitions, memo invariants, decomposability.  Bounded: verdicts vs "
+              "Deductive: is_finite (arity 0-3), four run-shape predicates equal their class definitions, memo invariants, decomposability, and the classification of a "
+              "permutation into the ten minimal non-polynomial classes (PolyPerms._find_type: split points into two monotone runs, layered permutations).  Bounded: verdicts vs "
               "structure-theorem specs, container independence incl. one-shot iterators, memo cold/warm, symmetries, consistency with real enumeration.", _BNOTE,
               "deductive contracts for the finiteness / shape predicates + bounded run-time contracts vs class-membership definitions"),
     "C14": _c("exploration",
               "Pin word decoding vs an independent geometric decoder for all pin words <=5/6, tables, factorisation, translations, containment vs real pattern containment "
-              "(bounded).  Deductive: purity of the memoised tables only (strings, exact rationals and recursion on strings are outside the subset).", _BNOTE,
+              "(bounded).  Deductive: is_strict_pinword and factor_pinword (strings as sequences of character codes) against their definitions, purity of the memoised tables "
+              "(exact rationals, dictionaries and the recursive containment test are outside the subset).", _BNOTE,
               "bounded run-time contracts vs geometric decoder and real containment"),
     "C15": _c("exploration",
               "Deductive: the literal transition table of the automaton for M is decided exactly against the definition (product construction), purity.  Bounded: acceptance "
